@@ -91,6 +91,19 @@ class Ctx:
         """Register a distinct observed state/configuration/interleaving (evidence only)."""
         self.states.add(sig_hash(st))
 
+    def once_per_run(self, token):
+        """True for exactly one caller per run (across shards): an O_EXCL lock file in the run's scratch directory."""
+        import os
+        d = os.environ.get("HVMON_SCRATCH")
+        if not d:
+            return self.shard == 0 and not self.counters.get("once:" + token)
+        try:
+            fd = os.open(os.path.join(d, f"once-{self.prop}-{token}.lock"), os.O_CREAT | os.O_EXCL | os.O_WRONLY)
+            os.close(fd)
+            return True
+        except FileExistsError:
+            return False
+
     def count(self, name, n=1):
         self.counters[name] += n
 
